@@ -53,7 +53,12 @@ def requests(ex):
 
 
 def spec_json(spec):
-    return {k: v for k, v in spec.items() if k not in ("builder", "wrap")}
+    out = {k: v for k, v in spec.items() if k not in ("builder", "wrap")}
+    if "inj" in out:
+        # request parameters may hold plan objects / callables: keep only what can be written to a replay file
+        out["inj"] = [list(i[:3]) + ([{k: v for k, v in i[3].items() if isinstance(v, (str, int, float, type(None)))}]
+                                      if len(i) > 3 else []) for i in out["inj"]]
+    return out
 
 
 def run_docs(docs):
